@@ -183,6 +183,7 @@ def run_batch(rep, rng, quick, lo, hi, totals):
 
 def tlc_run_retry(rep, module, cfg, **kw):
     """tlc.run, once more if the JVM died or reported an error without a verdict (machine under memory pressure)"""
+    kw.setdefault("heap", "3g")                      # the default (a quarter of the RAM) is far more than these runs need
     res = tlc.run(rep.pid, module, cfg, **kw)
     if (res.errors or res.rc not in (0, 12, 13)) and not res.violated:
         import sys
